@@ -4,6 +4,8 @@ CONSTANTS
   HashNameCaseSensitive = FALSE
   DictNoLenCheck = FALSE
   DictOrdered = TRUE
+  EqNameCasefold = FALSE
+  DictGetLookup = FALSE
   MCKinds <- Kinds
 INVARIANT AbsWellFormed
 INVARIANT AbsSymmetric
